@@ -10,6 +10,10 @@ Tie: real predict() (all retained columns) vs the compiled model at Float on gen
 Input families: 'library' (single-column comparisons in library order) and 'free' (custom comparisons: levels in arbitrary
 order, null levels anywhere / several, overlapping and multi-column conditions under SQL three-valued logic); settings built
 four ways, retain flags, predict() flags, object reuse; waterfall records of every returned pair checked by the oracle.
+SQL level (harness/props/c02_sql.py): the three scoring statements (gamma ladder, Bayes-factor ladder, product / match_probability,
+threshold) are regenerated as Rel terms for marker models without TF adjustments (Generated/ScoreSql.lean, tied by rfl to the generic form
+Model/ScoreSql.lean), Properties/C02Sql.lean proves first-TRUE-level / assigned factor / B/(1+B) in exact rationals / infinity branch /
+threshold-by-weight / refinement of Model/Score at Q under Rel.eval, and the pipeline is evaluated on the TF-free, threshold-free cases against the engine.
 """
 from __future__ import annotations
 
@@ -690,6 +694,7 @@ def compare(ctx, cases, drv):
     res = core.pmap(run_impl_safe, cases, chunksize=2)
     mres = drv.pbatch(reqs)
     problems = []
+    sql_items = []
     for c, req, r, m in zip(cases, reqs, res, mres):
         ps = pairs_of(c)
         has_tf = any("tf" in l for cc in c["comparisons"] for l in cc["levels"])
@@ -757,6 +762,10 @@ def compare(ctx, cases, drv):
             problems.append((c, "predict() columns differ from Lean model Score.score: " + bad, False))
             continue
         ctx.traces_validated += 1
+        sql_items.append((c, r))
+    from harness.props import c02_sql
+
+    problems += c02_sql.validate(ctx, sql_items, drv)  # the regenerated scoring SQL under Rel.eval vs the engine (translation validation)
     return problems
 
 
@@ -876,10 +885,16 @@ def run(ctx: core.Ctx):
     from harness.translate import tarith
 
     errs = tarith.write({"threshold_args_to_match_weight", "prob_to_match_weight", "prob_to_bayes_factor", "bayes_factor_to_prob", "match_weight_to_bayes_factor"})  # the model's threshold conversion is the translated source
+    from harness.props import c02_sql
+
+    sql_errs = c02_sql.prepare()  # Generated/ScoreSql.lean: the scoring statements comparison_vector_values.py / predict.py emit now, as Rel terms (T-sql); Properties/C02Sql.lean is re-checked against it
     ctx.lean = core.lean_check(PROP, ctx.thorough)
     if errs:
         ctx.lean.ok = False
         ctx.lean.problems += ["T-arith: " + e for e in errs]
+    if sql_errs:
+        ctx.lean.ok = False
+        ctx.lean.problems += ["T-sql: " + e for e in sql_errs]
     drv = core.Driver()
     if ctx.replay:
         cases = [json.loads(open(ctx.replay).read())["replay"]["case"]]
